@@ -21,7 +21,6 @@ import (
 	"reflect"
 	"sync"
 
-	"github.com/imdario/mergo"
 	"github.com/mitchellh/mapstructure"
 	"github.com/pkg/errors"
 	"k8s.io/klog/v2"
@@ -124,21 +123,34 @@ func (c *ConfigManager) loadAndUnmarshalConfigWithError(configName configv1alpha
 	return nil
 }
 
+// mergeConfig merges src into dst, with values in src overriding those in dst.
+// Maps are merged recursively (and never shared with src), any other value
+// replaces the value in dst.
+//
+// NOTE: We do not use mergo here, which silently skips a value whose kind does
+// not match the value it overrides (e.g. a map in place of a number), such that
+// the rest of a malformed config would be applied without it.
+func mergeConfig(dst, src map[string]interface{}) {
+	for k, v := range src {
+		srcMap, ok := v.(map[string]interface{})
+		if !ok {
+			dst[k] = v
+			continue
+		}
+		dstMap, ok := dst[k].(map[string]interface{})
+		if !ok {
+			dstMap = make(map[string]interface{}, len(srcMap))
+			dst[k] = dstMap
+		}
+		mergeConfig(dstMap, srcMap)
+	}
+}
+
 // loadConfig will load the given config name from all loaders.
 func (c *ConfigManager) loadConfig(configName configv1alpha1.ConfigName) (res Config, err error) {
 	if !c.started {
 		return nil, errors.New("config manager is not started")
 	}
-
-	// Handle panic from mergo.
-	defer func() {
-		if e := recover(); e != nil {
-			err = errors.New("recovered from panic")
-			if recovered, ok := e.(error); ok {
-				err = recovered
-			}
-		}
-	}()
 
 	// Repeatedly merge all loaders onto base config, from lowest to highest priority.
 	res = make(Config)
@@ -147,9 +159,7 @@ func (c *ConfigManager) loadConfig(configName configv1alpha1.ConfigName) (res Co
 		if err != nil {
 			return nil, errors.Wrapf(err, "cannot load %v", loader.Name())
 		}
-		if err := mergo.Merge(&res, loaded, mergo.WithOverride); err != nil {
-			return nil, errors.Wrapf(err, "cannot merge configs")
-		}
+		mergeConfig(res, loaded)
 	}
 
 	return res, nil
